@@ -1,6 +1,7 @@
 from circus.commands.base import Command
 from circus.commands.util import convert_option, validate_option
 from circus.exc import ArgumentError, MessageError
+from circus import util
 
 
 class Set(Command):
@@ -64,8 +65,23 @@ class Set(Command):
         else:
             return self.make_message(name=watcher_name, options=options)
 
+    def _check_options(self, watcher, options):
+        # values that set_opt() refuses are looked at before the first
+        # option is applied: a refused request changes nothing
+        for key, val in options.items():
+            if key == 'numprocesses':
+                if watcher.singleton and int(val) > 1:
+                    raise ValueError('Singleton watcher has a single process')
+            elif key == 'uid':
+                util.to_uid(val)
+            elif key == 'gid':
+                util.to_gid(val)
+            elif key == 'stop_signal':
+                util.to_signum(val)
+
     def execute(self, arbiter, props):
         watcher = self._get_watcher(arbiter, props.pop('name'))
+        self._check_options(watcher, props.get('options', {}))
         action = 0
         for key, val in props.get('options', {}).items():
             if key == 'hooks':
